@@ -135,7 +135,9 @@ def build_repo(kind="san"):
         if err:
             shutil.rmtree(d, ignore_errors=True)
             raise BuildError(err)
-        hobjs, err = _compile_many("clang", flags + ["-I" + HARNESS], [s for s in harness_srcs if s.endswith(".c")], d)
+        # the harness itself is never instrumented for coverage: the work counter counts library edges only
+        hflags = [f for f in flags if not f.startswith("-fsanitize-coverage")]
+        hobjs, err = _compile_many("clang", hflags + ["-I" + HARNESS], [s for s in harness_srcs if s.endswith(".c")], d)
         if err:
             shutil.rmtree(d, ignore_errors=True)
             raise BuildError(err)
